@@ -4,9 +4,11 @@ import (
 	"bytes"
 	"encoding/json"
 	"fmt"
+	"hash/fnv"
 	"io"
 	"os"
 	"regexp"
+	"sort"
 	"strings"
 
 	"github.com/glycerine/zygomys/v9/zygo"
@@ -15,10 +17,19 @@ import (
 
 const stepBudget = 3000000
 
-var ptrRe = regexp.MustCompile(`0x[0-9a-fA-F]+`)
+var ptrRe = regexp.MustCompile(`0x[0-9a-fA-F]{7,}`)
 var gorRe = regexp.MustCompile(`goroutine \d+`)
 
+var traceRe = regexp.MustCompile(`(?s) stack trace:\n.*?\n\n\n?`)
+
+// norm strips pointer values and goroutine ids.  The library appends the Go stack trace of a
+// recovered panic to the error text: that block (frames of the host program, raw argument
+// words) is removed as a whole.
 func norm(s string) string {
+	s = traceRe.ReplaceAllString(s, " [go stack trace]\n")
+	if i := strings.Index(s, "stack trace:"); i >= 0 {
+		s = s[:i] + "[go stack trace]"
+	}
 	s = ptrRe.ReplaceAllString(s, "0xPTR")
 	s = gorRe.ReplaceAllString(s, "goroutine N")
 	if len(s) > 6000 {
@@ -36,6 +47,47 @@ func newEnv() *zygo.Zlisp {
 
 // evalCaptured runs src in a fresh interpreter with os.Stdout redirected through a pipe.
 func evalCaptured(src string) Obs {
+	o, _, _ := evalCaptured2(src)
+	return o
+}
+
+// fingerprints of the process-global registry and of the symbol numbers the set-up gave to
+// the registered type names, taken before the program runs (used only to attribute a
+// difference to a listed finding, never to excuse it without one)
+func fingerprints(env *zygo.Zlisp) (reg, sym string) {
+	// second component of sym: the numbers of the builtin function names (interned by
+	// NewZlispWithFuncs, in sorted order)
+	bn := []string{}
+	for k := range zygo.AllBuiltinFunctions() {
+		bn = append(bn, k)
+	}
+	sort.Strings(bn)
+	h3 := fnv.New64a()
+	for _, n := range bn {
+		fmt.Fprintf(h3, "%s=%d;", n, env.MakeSymbol(n).Number())
+	}
+	defer func() { sym = sym + "/" + fmt.Sprintf("%x", h3.Sum64()) }()
+	names := []string{}
+	for k := range zygo.GoStructRegistry.Builtin {
+		names = append(names, k)
+	}
+	for k := range zygo.GoStructRegistry.Userdef {
+		names = append(names, k)
+	}
+	sort.Strings(names)
+	h1, h2 := fnv.New64a(), fnv.New64a()
+	for _, n := range names {
+		h1.Write([]byte(n + "\x00"))
+		fmt.Fprintf(h2, "%s=%d;", n, env.MakeSymbol(n).Number())
+	}
+	for _, n := range zygo.ListRegisteredTypes {
+		h1.Write([]byte(n + "\x01"))
+	}
+	return fmt.Sprintf("%d:%x", len(zygo.ListRegisteredTypes), h1.Sum64()), fmt.Sprintf("%x", h2.Sum64())
+}
+
+func evalCaptured2(src string) (Obs, string, string) {
+	var reg, sym string
 	realOut := os.Stdout
 	r, w, err := os.Pipe()
 	if err != nil {
@@ -53,6 +105,13 @@ func evalCaptured(src string) Obs {
 			}
 		}()
 		env := newEnv()
+		reg, sym = fingerprints(env)
+		if strings.HasPrefix(src, cliPrefix) {
+			// the command-line driver: zygo -countcalls <script> (prints the call counters)
+			runCli(strings.TrimPrefix(src, cliPrefix))
+			res = lib.Result{Class: lib.OutValue, Val: zygo.SexpNull}
+			return
+		}
 		res = lib.Eval(env, src, stepBudget)
 	}()
 	os.Stdout = realOut
@@ -81,12 +140,12 @@ func evalCaptured(src string) Obs {
 	case lib.OutBudget:
 		o.E = "BUDGET"
 	}
-	return o
+	return o, reg, sym
 }
 
 // disturb creates k other interpreters and uses them: struct declarations, record types,
 // globals, gensyms, hashes, a package — everything that could leave process-global traces.
-func disturb(k int, rng *lib.Rng) {
+func disturb(k int, rng *lib.Rng, clean bool) {
 	for i := 0; i < k; i++ {
 		env := newEnv()
 		n := rng.Intn(1000)
@@ -96,6 +155,12 @@ func disturb(k int, rng *lib.Rng) {
 (def zz%d (gensym)) (def hh (hash a:1 b:2 c:3 d:4 e:5 f:6 g:7)) (str hh) (json hh)
 (def sn (snoopy cry:"d")) (togo sn)
 (defn f%d [x] (+ x %d)) (f%d 1)`, n, n, n, n, n, n, n, n, n, n, n)
+		if clean {
+			// no declaration of types: the registry stays as the process set-up left it
+			src = fmt.Sprintf(`(def zz%d (gensym)) (def hh (hash a:1 b:2 c:3 d:4 e:5 f:6 g:7)) (str hh) (json hh) (hdel hh (quote c))
+(def sn (snoopy cry:"d")) (togo sn) (def pk (package "pk%d" { A := 1; B := 2 })) (str pk)
+(defn f%d [x] (+ x %d)) (f%d 1) (defmac m%d [a] ^(+ ~a 1)) (m%d 2) (undefined_sym_%d)`, n, n, n, n, n, n, n, n)
+		}
 		func() {
 			defer func() { recover() }()
 			lib.Eval(env, src, stepBudget)
@@ -120,29 +185,35 @@ func runChild(mode, progsPath, resPath string, sel, nreps int, order uint64, pro
 		os.Exit(2)
 	}
 	defer f.Close()
-	emit := func(r Rec) {
-		jb, _ := json.Marshal(r)
+	emit := func(id string, rep int, src string) {
+		o, reg, sym := evalCaptured2(src)
+		jb, _ := json.Marshal(Rec{ID: id, Mode: mode, Proc: procIdx, Rep: rep, Obs: o, Reg: reg, Sym: sym})
 		f.Write(append(jb, '\n'))
 	}
 	zygo.RegisterDemoStructs()
+	registerTypes()
+	// warm-up: ImportDemoData registers nestouter/nestinner on its first call; one discarded
+	// interpreter makes that part of the process set-up (as RegisterDemoStructs is), so that
+	// every measured interpreter starts from the same registry unless a PROGRAM changes it.
+	lib.Eval(newEnv(), `(def h (hash a:1)) (str h)`, stepBudget) // the first hash of a process registers the type "hash"
 	switch mode {
 	case "solo":
 		p := progs[sel]
 		for rep := 0; rep < nreps; rep++ {
-			emit(Rec{ID: p.ID, Mode: mode, Proc: procIdx, Rep: rep, Obs: evalCaptured(p.Src)})
+			emit(p.ID, rep, p.Src)
 		}
-	case "after":
+	case "after", "afterclean":
 		p := progs[sel]
 		rng := lib.NewRng(order)
-		disturb(2+rng.Intn(3), rng)
-		emit(Rec{ID: p.ID, Mode: mode, Proc: procIdx, Rep: 0, Obs: evalCaptured(p.Src)})
-	case "batch":
+		disturb(2+rng.Intn(3), rng, mode == "afterclean")
+		emit(p.ID, 0, p.Src)
+	case "batch", "fixed":
 		rng := lib.NewRng(order)
 		idx := make([]int, len(progs))
 		for i := range idx {
 			idx[i] = i
 		}
-		for i := len(idx) - 1; i > 0; i-- {
+		for i := len(idx) - 1; i > 0 && order != 0; i-- {
 			j := rng.Intn(i + 1)
 			idx[i], idx[j] = idx[j], idx[i]
 		}
@@ -150,7 +221,95 @@ func runChild(mode, progsPath, resPath string, sel, nreps int, order uint64, pro
 			if strings.Contains(progs[i].ID, "nobatch") {
 				continue
 			}
-			emit(Rec{ID: progs[i].ID, Mode: mode, Proc: procIdx, Rep: 0, Obs: evalCaptured(progs[i].Src)})
+			emit(progs[i].ID, 0, progs[i].Src)
 		}
 	}
+}
+
+// Go types of the harness, registered like an embedding application would: a record with a
+// pointer to another registered record (the Go -> Lisp direction scans the registry for the
+// field's type), and one type registered under two names.
+type C20Inner struct {
+	Hello string `json:"hello" msg:"hello"`
+	N     int64  `json:"n" msg:"n"`
+}
+type C20Outer struct {
+	Inner *C20Inner          `json:"inner" msg:"inner"`
+	Tag   string             `json:"tag" msg:"tag"`
+	M     map[string]float64 `json:"m" msg:"m"`
+	S     map[string]string  `json:"s" msg:"s"`
+}
+type C20Two struct {
+	A int64 `json:"a" msg:"a"`
+}
+
+func (o *C20Outer) Echo(x *C20Outer) *C20Outer { return x }
+func (o *C20Two) Echo(x *C20Two) *C20Two       { return x }
+
+func registerTypes() {
+	g := &zygo.GoStructRegistry
+	g.RegisterUserdef(&zygo.RegisteredType{GenDefMap: true, Factory: func(env *zygo.Zlisp, h *zygo.SexpHash) (interface{}, error) { return &C20Inner{}, nil }}, true, "c20inner")
+	g.RegisterUserdef(&zygo.RegisteredType{GenDefMap: true, Factory: func(env *zygo.Zlisp, h *zygo.SexpHash) (interface{}, error) { return &C20Outer{}, nil }}, true, "c20outer")
+	g.RegisterUserdef(&zygo.RegisteredType{GenDefMap: true, Factory: func(env *zygo.Zlisp, h *zygo.SexpHash) (interface{}, error) { return &C20Two{}, nil }}, true, "c20two", "C20Two")
+}
+
+// aliasGroups lists, for every registered user type, the names the registry holds it under
+// (registered names first, the reflect name last).
+var registryNames []string
+
+func aliasGroups() [][]string {
+	zygo.RegisterDemoStructs()
+	registerTypes()
+	lib.Eval(newEnv(), `(def h (hash a:1)) (str h)`, stepBudget)
+	by := map[string][]string{}
+	for k, rt := range zygo.GoStructRegistry.Registry {
+		if rt.IsUser && rt.ReflectName != "" {
+			by[rt.ReflectName] = append(by[rt.ReflectName], k)
+		}
+	}
+	registryNames = registryNames[:0]
+	for k := range zygo.GoStructRegistry.Builtin {
+		registryNames = append(registryNames, k)
+	}
+	for k := range zygo.GoStructRegistry.Userdef {
+		registryNames = append(registryNames, k)
+	}
+	sort.Strings(registryNames)
+	keys := []string{}
+	for k := range by {
+		keys = append(keys, k)
+	}
+	sort.Strings(keys)
+	var out [][]string
+	for _, k := range keys {
+		g := by[k]
+		sort.Slice(g, func(i, j int) bool {
+			di, dj := strings.Contains(g[i], "."), strings.Contains(g[j], ".")
+			if di != dj {
+				return !di
+			}
+			return strings.ToLower(g[i])+g[i] > strings.ToLower(g[j])+g[j]
+		})
+		if len(g) > 1 {
+			out = append(out, g)
+		}
+	}
+	return out
+}
+
+const cliPrefix = "#cli-countcalls\n"
+
+func runCli(script string) {
+	f, err := os.CreateTemp("", "c20-*.zy")
+	if err != nil {
+		panic(err)
+	}
+	defer os.Remove(f.Name())
+	f.WriteString(script)
+	f.Close()
+	cfg := zygo.NewZlispConfig("zygo")
+	cfg.DefineFlags()
+	cfg.Flags.Parse([]string{"-countcalls", "-quiet", f.Name()})
+	cfg.ValidateConfig()
+	zygo.ReplMain(cfg)
 }
